@@ -204,6 +204,7 @@ def showTok : Tok → List Char
   | .n _ => ['#']
   | .g ts => '[' :: showToks ts ++ [']']
   | .nm _ _ _ ts => showToks ts
+  | .hid _ => []
 def showToks : List Tok → List Char
   | [] => []
   | x :: xs => showTok x ++ ' ' :: showToks xs
